@@ -4,7 +4,7 @@
    Cde.write_courses; the real files are compared with these and checked by Cde.import_okb inside Coq on every run). *)
 From Coq Require Import List ZArith Lia Bool Arith.
 Require Import HP1 Cao1 Cao3 Json Cde CdeThms CdeWriteOk.
-Require CdeSpec CdeRefine CdeIds WriteDoc WriteDocThms CdeImportSound.
+Require CdeSpec CdeRefine CdeIds WriteDoc WriteDocThms CdeImportSound CdeE2E SpecProofs.
 From Coq Require Import Permutation String.
 Import ListNotations.
 Open Scope nat_scope.
@@ -76,6 +76,7 @@ Proof. exact CdeImportSound.import_okb_sound. Qed.
 Theorem C05_document : forall eid tid regs crs rooms sm ts,
   NoDup (map fst regs) -> NoDup (map fst crs) ->
   (forall r, In r regs -> WriteDocThms.in_u64 (fst r) /\ WriteDocThms.in_u64 (snd r)) -> (forall c, In c crs -> WriteDocThms.in_u64 (fst c)) ->
+  match rooms with Some (_, l) => List.length l = List.length crs | None => True end ->
   exists im, WriteDoc.import_of_doc tid (WriteDoc.write_doc eid tid regs crs rooms sm ts) = Some im /\
              WriteDoc.im_event im = eid /\ WriteDoc.im_summary im = sm /\ Permutation (WriteDoc.im_regs im) regs /\
              Permutation (WriteDoc.im_courses im) (WriteDocThms.course_rows crs rooms).
@@ -85,12 +86,65 @@ Theorem C05_keys_parse_back : forall z, (0 <= z < 18446744073709551616)%Z -> par
 Proof. exact WriteDocThms.parse_zstr. Qed.
 (* non-vacuity: a document for two registrations and two courses with a possible-rooms field *)
 Example C05_document_example :
-  match WriteDoc.import_of_doc 3 (WriteDoc.write_doc 1 3 [(10, 2); (9, 1)]%Z [(1, true); (2, false)]%Z (Some ("raum"%string, ["8, 5"; ""]%string)) "s"%string "t"%string) with
-  | Some im => WriteDoc.im_regs im = [(10, 2); (9, 1)]%Z /\ List.length (WriteDoc.im_courses im) = 2
+  match WriteDoc.import_of_doc 3 (WriteDoc.write_doc 1 3 [(10, 2); (9, 1)]%Z [(1, true); (2, false)]%Z (Some ("raum"%string, ["8, 5"; "x"]%string)) "s"%string "t"%string) with
+  | Some im => WriteDoc.im_regs im = [(10, 2); (9, 1)]%Z /\
+               WriteDoc.im_courses im = [(1, true, Some ("raum", "8, 5")); (2, false, Some ("raum", "x"))]%Z%string
   | None => False end.
 Proof. vm_compute. split; reflexivity. Qed.
+(* "only the selected track": read for another track, the document of a non-empty assignment is refused *)
+Theorem C05_other_track_refused : forall eid tid tid' regs crs rooms sm ts,
+  zstr tid' <> zstr tid -> regs <> [] -> NoDup (map fst regs) -> (forall r, In r regs -> WriteDocThms.in_u64 (fst r)) ->
+  WriteDoc.import_of_doc tid' (WriteDoc.write_doc eid tid regs crs rooms sm ts) = None.
+Proof. exact WriteDocThms.import_other_track. Qed.
+(* comparing documents with json_eqb (CorrDoc) decides equality of JSON values *)
+Theorem C05_document_compare : forall a b, WriteDoc.json_eqb a b = true <-> a = b.
+Proof. exact WriteDocThms.json_eqb_spec. Qed.
 
-Check C05_file. Check C05. Check C05_ids_distinct. Check C05_export_file. Check C05_document. Check C05_keys_parse_back. Check C05_check_sound.
+(* END TO END: for EVERY export the reader accepts (any options) whose registration and course keys are canonical, EVERY assignment of the
+   problem it builds that satisfies the hard constraints (C01 proves this of every reported one) and the whole document the writer makes of
+   it: the import side reads the document (for the selected track), finds the event id of the export, and what it reads satisfies the
+   declarative consistency statement ImportOK w.r.t. the problem -- only registrations and courses of the problem, each once; everybody
+   placed in a course marked as taking place that the person chose or instructs; courses taking place within their limits; nobody in a
+   cancelled course; every course of the problem mentioned *)
+Theorem C05_end_to_end : forall data track ign_c ign_a ff of ps cs amb K a rooms sm ts,
+  read_fields data track ign_c ign_a ff of = ROk (ps, cs, amb) -> CdeIds.keys_canonical data = true ->
+  HardOK_K (map to_course cs) (map to_part ps) K a ->
+  (forall c, K c = true -> c < nc (map to_course cs) /\ c_fixed (crs (map to_course cs) c) = false) ->
+  match rooms with Some (_, l) => List.length l = List.length cs | None => True end ->
+  exists im,
+    WriteDoc.import_of_doc (ra_track amb) (WriteDoc.write_doc (ra_event amb) (ra_track amb) (write_regs a ps cs) (write_courses a cs) rooms sm ts) = Some im /\
+    WriteDoc.im_event im = ra_event amb /\ WriteDoc.im_summary im = sm /\
+    CdeImportSound.ImportOK ps cs (WriteDoc.im_regs im) (map CdeE2E.row_flag (WriteDoc.im_courses im)).
+Proof. exact CdeE2E.export_to_import. Qed.
+
+Check C05_file. Check C05. Check C05_ids_distinct. Check C05_export_file. (* non-vacuity of C05_end_to_end: a small export (one part, one track, two courses, two registrations choosing them), read with --track 1: the
+   reader accepts it, its keys are canonical, the assignment [Some 0; Some 1] satisfies the hard constraints (checked by the executable
+   hard_okb, proved sound), so the theorem applies and the import side reads the two pairs (5 -> 10), (6 -> 11) *)
+Definition c05_export : json :=
+  JObj [("kind", JStr "partial"); ("EVENT_SCHEMA_VERSION", JArr [JInt 16; JInt 0]); ("id", JInt 7); ("timestamp", JStr "2023-04-23T12:02:09+00:00");
+        ("event", JObj [("parts", JObj [("1", JObj [("tracks", JObj [("1", JObj [("shortname", JStr "a"); ("num_choices", JInt 2)])])])])]);
+        ("courses", JObj [("10", JObj [("nr", JStr "1"); ("shortname", JStr "K"); ("segments", JObj [("1", JBool true)]); ("fields", JObj [])]);
+                          ("11", JObj [("nr", JStr "2"); ("shortname", JStr "L"); ("segments", JObj [("1", JBool true)]); ("fields", JObj [])])]);
+        ("registrations", JObj [("5", JObj [("parts", JObj [("1", JObj [("status", JInt 2)])]);
+                                            ("tracks", JObj [("1", JObj [("course_id", JNull); ("course_instructor", JNull); ("choices", JArr [JInt 10; JInt 11])])]);
+                                            ("persona", JObj [("given_names", JStr "G"); ("family_name", JStr "F")])]);
+                                ("6", JObj [("parts", JObj [("1", JObj [("status", JInt 2)])]);
+                                            ("tracks", JObj [("1", JObj [("course_id", JNull); ("course_instructor", JNull); ("choices", JArr [JInt 11])])]);
+                                            ("persona", JObj [("given_names", JStr "H"); ("family_name", JStr "F")])])])].
+Example C05_end_to_end_applies :
+  exists ps cs amb im,
+    read_fields c05_export (Some 1%Z) false false None None = ROk (ps, cs, amb) /\ CdeIds.keys_canonical c05_export = true /\
+    HardOK_K (map to_course cs) (map to_part ps) (fun _ => false) [Some 0; Some 1] /\
+    WriteDoc.import_of_doc (ra_track amb) (WriteDoc.write_doc (ra_event amb) (ra_track amb) (write_regs [Some 0; Some 1] ps cs) (write_courses [Some 0; Some 1] cs) None "s" "t") = Some im /\
+    WriteDoc.im_regs im = [(5, 10); (6, 11)]%Z /\ WriteDoc.im_event im = 7%Z.
+Proof.
+  destruct (read_fields c05_export (Some 1%Z) false false None None) as [[[ps cs] amb]|] eqn:E; [|vm_compute in E; discriminate].
+  exists ps, cs, amb. vm_compute in E. inversion E; subst. eexists. split; [reflexivity|]. split; [vm_compute; reflexivity|]. split.
+  - apply SpecProofs.hard_okb_sound. vm_compute. reflexivity.
+  - split; [vm_compute; reflexivity|]. split; vm_compute; reflexivity.
+Qed.
+
+Check C05_document. Check C05_keys_parse_back. Check C05_check_sound. Check C05_other_track_refused. Check C05_document_compare. Check C05_end_to_end.
 Print Assumptions C05.
 Print Assumptions C05_file.
 Print Assumptions C05_ids_distinct.
@@ -98,3 +152,6 @@ Print Assumptions C05_export_file.
 Print Assumptions C05_document.
 Print Assumptions C05_keys_parse_back.
 Print Assumptions C05_check_sound.
+Print Assumptions C05_other_track_refused.
+Print Assumptions C05_document_compare.
+Print Assumptions C05_end_to_end.
